@@ -330,7 +330,22 @@ def main():
                    "SELECT sum(amount * 0) AS s FROM orders", "SELECT count(qty) AS n FROM orders WHERE qty IN (0)", "SELECT avg(amount) AS m FROM orders WHERE amount >= 0 AND amount <= 0",
                    "SELECT sum(frac) AS f, variance(frac) AS v FROM orders", "SELECT qty, count(*) AS n FROM orders GROUP BY qty", "SELECT stddev(bal) AS sd FROM orders WHERE bal = 0",
                    "SELECT sum(o.amount) AS s FROM orders AS o JOIN users AS u ON o.user_id = u.id WHERE u.age = 0", "SELECT sum(age) AS s FROM users WHERE age < 0"]
+    # shape family: select lists x GROUP BY clauses over the protected table (bare columns next to a GROUP BY become FIRST
+    # aggregates in the relation; DISTINCT, HAVING, ORDER BY / LIMIT, sub-queries, joins): whatever the rule setter accepts, the
+    # DP compiler must compile or refuse with an error
+    shape_programs = []
+    for sel in ("kind", "kind, qty", "kind, amount", "kind, sum(amount) AS s", "kind, qty, count(*) AS n", "kind, amount, sum(bal) AS s", "kind, max(qty) AS m", "kind, min(amount) AS m", "count(DISTINCT kind) AS n, sum(amount) AS s"):
+        for gb in ("", " GROUP BY kind", " GROUP BY kind, qty"):
+            shape_programs.append("SELECT %s FROM orders%s" % (sel, gb))
+    shape_programs += ["SELECT DISTINCT kind FROM orders", "SELECT DISTINCT kind, qty FROM orders", "SELECT kind, sum(amount) AS s FROM orders GROUP BY kind HAVING sum(amount) > 0",
+                       "SELECT kind, sum(amount) AS s FROM orders GROUP BY kind ORDER BY kind LIMIT 1", "SELECT sum(s) AS ss FROM (SELECT kind, sum(amount) AS s FROM orders GROUP BY kind) AS q",
+                       "WITH q AS (SELECT user_id, amount FROM orders WHERE amount > 0) SELECT count(*) AS n, avg(amount) AS m FROM q", "SELECT u.city AS c, o.kind AS k, sum(o.amount) AS s FROM orders AS o JOIN users AS u ON o.user_id = u.id GROUP BY u.city, o.kind",
+                       "SELECT u.city AS c, o.kind AS k, sum(o.amount) AS s FROM orders AS o JOIN users AS u ON o.user_id = u.id GROUP BY u.city", "SELECT kind + 1 AS k, sum(amount) AS s FROM orders GROUP BY kind + 1",
+                       "SELECT CASE WHEN amount > 0 THEN 1 ELSE 0 END AS pos, count(*) AS n FROM orders GROUP BY CASE WHEN amount > 0 THEN 1 ELSE 0 END", "SELECT p.k AS k, sum(o.amount) AS s FROM orders AS o JOIN pub AS p ON o.kind = p.k GROUP BY p.k"]
     ptabs, pus = pucat.tables(2), pucat.pu_defs()
+    for sql in shape_programs:
+        sweep.append(("rewrite_dp", sql, dict(op="rewrite", mode="dp", tables=ptabs, privacy_unit=pus["chain"], dp=dict(epsilon=1.0, delta=1e-3), synthetic=False, sql=sql)))
+        sweep.append(("rewrite_dp", sql, dict(op="rewrite", mode="dp", tables=ptabs, privacy_unit=pus["own-column"], dp=dict(epsilon=1.0, delta=1e-3), synthetic=True, sql=sql)))
     for sql in dp_programs:
         for prm in (dict(epsilon=1.0, delta=1e-3), dict(epsilon=1.0, delta=1e-3, privacy_unit_max_multiplicity=0.0, privacy_unit_max_multiplicity_share=0.0)):
             sweep.append(("rewrite_dp", sql, dict(op="rewrite", mode="dp", tables=ptabs, privacy_unit=pus["chain"], dp=prm, synthetic=False, sql=sql)))
